@@ -548,7 +548,7 @@ impl<C: Config, Q: Query> Snapshot<C, Q> {
         if self
             .pending_backward_projection()
             .await
-            .is_none_or(|x| x.0 != caller_information.timestamp())
+            .is_none_or(|x| x.0 > caller_information.timestamp())
         {
             return None;
         }
